@@ -360,7 +360,7 @@ example : ∃ b, (buildExpr { ees := [], classes := [] } (.bin (.int "1") "+" (.
     (by decide)).2.2.1
 
 /-- BODY level, sub-subset `coreB` (statement lists of assignment to a variable / attribute, return, break, continue,
-    control stop, create with / without variable, select from instances, delete, relate / unrelate (+ using), `while` /
+    control stop, create with / without variable, select from instances (+ where), delete, relate / unrelate (+ using), `while` /
     `for each` loops and `if` without elif / else over such lists, nested to any depth): in the population of a whole body every key that is
     searched backwards — the supertype an R603 / R801 subtype row names, Block_ID (R602) and Previous_Statement_ID
     (R661) of an ACT_SMT, the `if` of an ACT_EL / ACT_E (R682 / R683) — names a row created EARLIER: it exists (no
@@ -527,6 +527,65 @@ example : (callFn (mkEnv { ees := [], classes := [] } {}) 20 accept_BreakNode [.
 example : (callFn (mkEnv { ees := [], classes := ["DOG"] } { strs := [("key_letter", "DOG")] }) 20
       accept_CreateObjectNoVariableNode [.node] [] { st := { pop := [.blk true], scopes := [⟨.blk 0, []⟩] } }).map (·.2.st.pop)
     = some [.blk true, .smt 0 none, .cnv 1 "DOG"] := by decide
+
+/-! round 3: values.  The R820 type of a V_VAL is kept in the interpreter's side table `tys` (FlatPop does not store it);
+    the type the source selects is stated as `unTy` / `binTy` (Proofs/PbShape.lean), written like the clauses of `typeOf`. -/
+
+/-- `v_val(node)`: a V_VAL related over R826 to the current block = `newVal` -/
+theorem v_val_as_in_source (fc : FCtx) (nd : Node) (g : G) (n : Nat) (hb : BlkOK g.st) :
+    callFn (mkEnv fc nd) (n + 12) v_val [.node] [] g = some (.inst (newVal g.st).1, { g with st := (newVal g.st).2 }) :=
+  v_val_fuel fc nd g n hb
+
+/-- `accept_IntegerNode` / `accept_RealNode` / `accept_StringNode`: s_dt by name (R820), v_val, the R801 subtype row with
+    Value (for a string: `node.value[1:-1]`) = the literal clauses of `buildExpr` -/
+theorem literals_as_in_source (fc : FCtx) (nd : Node) (g : G) (n : Nat) (v : String) (hb : BlkOK g.st)
+    (hv : nd.strs.lookup "value" = some v) :
+    callFn (mkEnv fc nd) (n + 20) accept_IntegerNode [.node] [] g
+      = some (.inst (buildExpr fc (.int v) g.st).1,
+              { g with st := (buildExpr fc (.int v) g.st).2, tys := ((buildExpr fc (.int v) g.st).1, "integer") :: g.tys }) ∧
+    callFn (mkEnv fc nd) (n + 20) accept_RealNode [.node] [] g
+      = some (.inst (buildExpr fc (.real v) g.st).1,
+              { g with st := (buildExpr fc (.real v) g.st).2, tys := ((buildExpr fc (.real v) g.st).1, "real") :: g.tys }) ∧
+    callFn (mkEnv fc nd) (n + 20) accept_StringNode [.node] [] g
+      = some (.inst (buildExpr fc (.str v) g.st).1,
+              { g with st := (buildExpr fc (.str v) g.st).2, tys := ((buildExpr fc (.str v) g.st).1, "string") :: g.tys }) :=
+  ⟨integer_eq fc nd g n v hb hv, real_eq fc nd g n v hb hv, string_eq fc nd g n v hb hv⟩
+
+/-- `accept_UnaryOperationNode`, for ANY oracle of the operand that answers a V_VAL `o` with recorded type `t`: a V_VAL
+    (`newVal`), a V_UNY row with the lower-cased operator, R804 to the operand — the `.un` clause of `buildExpr` with
+    `o` for the operand — and R820 := `unTy` (boolean for not / empty / not_empty, integer for cardinality, else `t`) -/
+theorem unary_as_in_source (fc : FCtx) (nd : Node) (g g1 : G) (n o b : Nat) (op t : String) (acc : Acc)
+    (hop : nd.strs.lookup "operator" = some op) (hk : nd.kids.lookup "operand" = some acc)
+    (ha : acc [] g = (.inst o, g1)) (hb : BlkOK g1.st) (ho : g1.st.pop[o]? = some (.val b))
+    (ht : g1.tys.lookup o = some t) :
+    callFn (mkEnv fc nd) (n + 30) accept_UnaryOperationNode [.node] [] g
+      = some (.inst (newVal g1.st).1,
+              { g1 with st := ((newVal g1.st).2.new (.uny (newVal g1.st).1 (lowerStr op) o)).2,
+                        tys := ((newVal g1.st).1, unTy (lowerStr op) t) :: g1.tys }) :=
+  unary_eq fc nd g g1 n o b op t acc hop hk ha hb ho ht
+
+/-- `accept_BinaryOperationNode` for the comparison / logical operators and the operators that are no set operator
+    (`*`, `/`, `%`): left then right accepted, V_VAL, V_BIN with the lower-cased operator, R802 := left, R803 := right,
+    R820 := `binTy` (boolean for a comparison, else the LEFT operand's type).  `_partial`: the branch of `| + & ^ -`
+    (test of the left type against the generic reference types) is interpreted but not proved. -/
+theorem binary_as_in_source_partial (fc : FCtx) (nd : Node) (g g1 g2 : G) (n l r bl br : Nat) (op t : String) (accL accR : Acc)
+    (hop : nd.strs.lookup "operator" = some op)
+    (hkl : nd.kids.lookup "left" = some accL) (hkr : nd.kids.lookup "right" = some accR)
+    (hal : accL [] g = (.inst l, g1)) (har : accR [] g1 = (.inst r, g2)) (hb : BlkOK g2.st)
+    (hl : g2.st.pop[l]? = some (.val bl)) (hr : g2.st.pop[r]? = some (.val br))
+    (ht : g2.tys.lookup l = some t)
+    (h2 : ¬ (lowerStr op = "|" ∨ lowerStr op = "+" ∨ lowerStr op = "&" ∨ lowerStr op = "^" ∨ lowerStr op = "-")) :
+    callFn (mkEnv fc nd) (n + 40) accept_BinaryOperationNode [.node] [] g = binRes g2 op t l r :=
+  binary_eq fc nd g g1 g2 n l r bl br op t accL accR hop hkl hkr hal har hb hl hr ht h2
+
+-- NOT yet proved (left for the next round): `typeOf c env sel (.un op e) = some (unTy op t)` and
+-- `typeOf c env sel (.bin e op e') = some (binTy op t)` when `typeOf c env sel e = some t`; `unTy` / `binTy`
+-- (Proofs/PbShape.lean) are written clause by clause like `typeOf` in Typing.lean.
+
+/-- applied: `7` in the outer block -/
+example : (callFn (mkEnv { ees := [], classes := [] } { strs := [("value", "7")] }) 20 accept_IntegerNode [.node] []
+      { st := { pop := [.blk true], scopes := [⟨.blk 0, []⟩] } }).map (fun r => (r.2.st.pop, r.2.tys))
+    = some ([.blk true, .val 0, .lin 1 "7"], [(1, "integer")]) := by decide
 
 end PbShape
 
